@@ -232,7 +232,7 @@ func runC18(c *Ctx) {
 
 		// R10: in the address form the line is rejected exactly when the first token does not parse
 		// as an address (whatever netip.ParseAddr accepts is an address: IPv4, IPv6, zoned IPv6)
-		c.Rule("C18.R10", "PDT", "address form: rejected iff netip.ParseAddr fails on the first token", 1)
+		c.Rule("C18.R10", "PDT", "address form: rejected iff netip.ParseAddr fails on the first token; the stored address is the parsed one", 2)
 		bad = ""
 		if len(acts) == 0 {
 			bad = "UNDECIDED: the tokenizer is never called"
@@ -288,6 +288,37 @@ func runC18(c *Ctx) {
 			}
 		}
 		c.Check(bad == "", "C18.R10", "NewHostRule: address form rejected iff the address does not parse", nhr.Pos(), "error return condition equals ParseAddr(first token) failing", bad)
+		// ... and the address of the rule is the parsed address itself (or the unspecified IPv4 of the bare form)
+		{
+			badIP := ""
+			nIP := 0
+			for _, ef := range s.Effects {
+				if ef.Kind != "store" || ef.Addr.Op != "faddr" || ef.Addr.Aux != "IP" || ef.Cond == False {
+					continue
+				}
+				for leaf, lc := range u.Leaves(ef.Val) {
+					if u.bdd.And(lc, ef.Cond) == False {
+						continue
+					}
+					nIP++
+					x := leaf
+					if x.Op == "extract" && len(x.Args) == 1 && x.Aux == "0" {
+						x = x.Args[0]
+					}
+					okv := x.Op == "call" && (x.Aux == "net/netip.ParseAddr" || x.Aux == "net/netip.IPv4Unspecified" || x.Aux == "net/netip.MustParseAddr")
+					if x.Op == "zero" || x.Op == "struct" {
+						okv = true // the zero address of a rule that is then rejected
+					}
+					if !okv && badIP == "" {
+						badIP = c.P.Pos(ef.Pos) + ": the rule's address is " + clip(u.Show(leaf), 100) + ", not the address parsed from the line: a transformed address (Unmap, WithZone, ...) changes the family the rule is filed and answered under"
+					}
+				}
+			}
+			if nIP == 0 {
+				badIP = "UNDECIDED: no store to HostRule.IP found"
+			}
+			c.Check(badIP == "", "C18.R10", "NewHostRule: HostRule.IP is the parsed address", nhr.Pos(), fmt.Sprintf("%d stored value(s): netip.ParseAddr(first token) or netip.IPv4Unspecified()", nIP), badIP)
+		}
 	}
 
 	// ---------- R2 / R3 tokenizer ----------
